@@ -164,3 +164,91 @@ def dump_mutant(prop, mid, keys, config="default"):
                     print(dump_fn(f))
     finally:
         shutil.rmtree(tmp, ignore_errors=True)
+
+
+# ------------------------------------------------------------------------------------------ seeded changes
+def load_seeded(prop=None):
+    """seeded changes produced by independent sub-agents: /verif/seeded/<id>/{patch.diff, meta.json}"""
+    import json
+    root = os.path.join(extract.VERIF, "seeded")
+    out = []
+    if not os.path.isdir(root):
+        return out
+    for d in sorted(os.listdir(root)):
+        mp = os.path.join(root, d, "meta.json")
+        pp = os.path.join(root, d, "patch.diff")
+        if not (os.path.exists(mp) and os.path.exists(pp)):
+            continue
+        with open(mp) as fh:
+            meta = json.load(fh)
+        if prop and meta.get("property") != prop:
+            continue
+        meta["id"] = d
+        meta["patch"] = pp
+        out.append(meta)
+    return out
+
+
+def run_seeded_one(meta, repo=None):
+    """apply the patch to a scratch copy, analyse statically, run every property's rules; returns which fire"""
+    import subprocess
+    repo = repo or extract.REPO
+    tmp = tempfile.mkdtemp(prefix="cwmt-seed-")
+    res = {"id": meta["id"], "prop": meta.get("property"), "status": "?", "rules": [], "findings": [], "detail": ""}
+    try:
+        shutil.copytree(os.path.join(repo, "src"), os.path.join(tmp, "src"))
+        for f in ("Cargo.toml", "Cargo.lock"):
+            shutil.copy(os.path.join(repo, f), os.path.join(tmp, f))
+        r = subprocess.run(["patch", "-p1", "-s", "--no-backup-if-mismatch", "-i", meta["patch"]], cwd=tmp, stdout=subprocess.PIPE, stderr=subprocess.STDOUT, text=True)
+        if r.returncode != 0:
+            res["status"] = "skipped"
+            res["detail"] = "patch does not apply: " + r.stdout[-300:]
+            return res
+        cfgs = []
+        for cname in meta.get("configs") or ["default", "all-features"]:
+            out = os.path.join(tmp, "facts-%s.json" % cname)
+            ok, log = extract.replay(cname, tmp, out)
+            if not ok:
+                res["status"] = "does-not-compile"
+                res["detail"] = log[-800:]
+                return res
+            cfgs.append(core.Cfg(cname, Facts(out)))
+        known = core.load_known()
+        rdir = os.path.join(extract.VERIF, "rules")
+        props = sorted(f[:-3] for f in os.listdir(rdir) if f.startswith("C") and f.endswith(".py") and len(f) == 6)
+        for prop in props:
+            mod = importlib.import_module("rules." + prop)
+            ctx = core.Ctx(prop, cfgs, "thorough")
+            for c in cfgs:
+                ctx.cur = c
+                try:
+                    mod.check(ctx, c)
+                except Exception as e:
+                    ctx.fail(prop + ".R0", "-", "checker-crash", "%r %s" % (e, traceback.format_exc()[-600:]))
+            for k, f in ctx.findings.items():
+                if (prop, k) not in known:
+                    res["rules"].append(f.rule)
+                    res["findings"].append("%s: %s" % (k, f.message[:240]))
+        res["rules"] = sorted(set(res["rules"]))
+        own = [r for r in res["rules"] if r.startswith(meta.get("property", "?") + ".")]
+        res["status"] = "caught" if own else ("caught-by-other-property" if res["rules"] else "missed")
+        return res
+    except Exception as e:
+        res["status"] = "error"
+        res["detail"] = "%r %s" % (e, traceback.format_exc()[-600:])
+        return res
+    finally:
+        shutil.rmtree(tmp, ignore_errors=True)
+
+
+def run_seeded(prop=None, only=None, jobs=8):
+    metas = load_seeded(prop)
+    if only:
+        metas = [m for m in metas if m["id"] in only]
+    if not metas:
+        return []
+    for c in sorted({c for m in metas for c in (m.get("configs") or ["default", "all-features"])}):
+        if not os.path.exists(os.path.join(extract.WORK, "cmd-%s.json" % c)):
+            extract.extract(c, use_cache=False)
+    with ProcessPoolExecutor(max_workers=min(jobs, len(metas))) as ex:
+        return list(ex.map(run_seeded_one, metas))
